@@ -444,7 +444,7 @@ def direction_traces(lines):
                         a_open = False
                     elif d["e"] == "send" and d["r"] != "nostream":
                         tr.append({"e": "s", "m": d["m"], "per": d["per"], "n": d["n"], "len": d["len"], "r": d["r"], "w": d.get("w", 0),
-                                   "idn": d["len"] >= HDR})
+                                   "idn": d["len"] >= HDR, "hg": d.get("hg", 0)})
                         sends += 1
                 for d in lb:
                     if d.get("p") != a:
@@ -516,6 +516,14 @@ def stream_families(seed, tier):
         add("capacity-wait", cfg(0, sync=sy, asyn=asy, mx=256, perturb=i % 3),
             opened + [op("stall", ep="X", cls="conn", on=True), send("X", "a", asy + 3, "max"), send("X", "s", sy, "min"), op("pump", ms=400),
                       op("stall", ep="X", cls="conn", on=False), op("pump", ms=500), send("X", "a", 2, "min"), op("pump", ms=200)])
+    # held overflow (seeded C12g): the sender's Connection tasks are held, so nothing leaves the synchronous channel: it
+    # accepts its capacity, every further synchronous send must report the clog - also the second, third ... one
+    for i in range(3 if tier == "quick" else 12):
+        sy, asy = ((4, 1), (1, 1), (16, 8))[i % 3]
+        d = ("X", "Y")[i % 2]
+        add("held-overflow", cfg(0, sync=sy, asyn=asy, mx=256, perturb=i % 3),
+            opened + [op("stall", ep=d, cls="conn", on=True), send(d, "s", sy + 4, "min"), op("stall", ep=d, cls="conn", on=False),
+                      op("pump", ms=600)])
     # transport frozen (the proxy stops forwarding) under a large burst, reader stalled, then everything flows again
     for i in range(1 if tier == "quick" else 4):
         add("frozen-transport", cfg(0, sync=16, asyn=8, mx=32768, perturb=i % 3),
